@@ -10,7 +10,7 @@
 (* `reset` event; after a rejected event the rest of the episode is        *)
 (* skipped (its state is unknown) and validation resumes at the next one.  *)
 (***************************************************************************)
-EXTENDS Ska, TLC, Json, IOUtils
+EXTENDS Ska, Lo, TLC, Json, IOUtils
 
 Rec == ndJsonDeserialize(IOEnv.TRACE)
 
@@ -136,8 +136,20 @@ EvLoad(e) ==
            /\ e.k_bits = w,
     nf |-> Same]
 
+\* C03: `ska align --min-freq 1` on samples derived from an ancestor by isolated substitutions.
+\* The specification checks that the recorded samples ARE that derivation, evaluates the
+\* preconditions on them, and - when they hold - requires exactly one column per variable site.
+EvSnpAlign(e) ==
+   LET c == e.ctx
+       pre == UniquePerPosition(c.samples, c.k) /\ Isolated(c.sites, c.samples, Half(c.k))
+   IN [ok |-> /\ Assert(DerivationOK(c.ancestor, c.sites, c.alleles, c.samples), "DRIVER-DRIFT: samples are not the stated derivation")
+              /\ Assert(pre = c.pre_strict, "DRIVER-DRIFT: precondition evaluated differently by driver and specification")
+              /\ (pre => e.ok /\ SnpColumnsOK(e.names, e.seqs, c.names, c.alleles)),
+       nf |-> Same]
+
 Eval(e) ==
    CASE e.ev = "build" -> EvBuild(e)
+     [] e.ev = "snpalign" -> EvSnpAlign(e)
      [] e.ev = "load" -> EvLoad(e)
      [] e.ev = "import" -> EvImport(e)
      [] e.ev = "merge" -> EvMerge(e)
